@@ -50,3 +50,21 @@ Theorem C07_repeated_vertices_same_result :
   \/ (boolean_operation cfg fuel A B op = Ok (trivial_result A B op) /\
       boolean_operation cfg fuel A' B' op = Ok (trivial_result A' B' op)).
 Proof. exact boolean_operation_same. Qed.
+
+(** the rewritings that keep the edges of an operand — another start vertex of a ring, another
+    order of the rings / polygons — keep the region the operand denotes (even-odd reading): the
+    region depends only on the multiset of edges *)
+From Coq Require Import Permutation.
+From GB Require Import Slab BoundaryRegion.
+Theorem C07_other_start_vertex_same_region :
+  forall (a : qpt) (l1 : list qpt) (b : qpt) (l2 : list qpt) (rs : list ring) p,
+  inside_eo ((a :: l1 ++ b :: l2) :: rs) p = inside_eo ((b :: l2 ++ a :: l1) :: rs) p.
+Proof. exact rotated_ring_same_region. Qed.
+
+Theorem C07_other_ring_order_same_region :
+  forall rs1 rs2 : list ring, Permutation rs1 rs2 -> forall p, inside_eo rs1 p = inside_eo rs2 p.
+Proof. exact reordered_rings_same_region. Qed.
+
+Theorem C07_other_direction_same_region :
+  forall (r : ring) (rs : list ring) p, inside_eo (rev r :: rs) p = inside_eo (r :: rs) p.
+Proof. exact reversed_ring_same_region. Qed.
